@@ -157,8 +157,8 @@ PROPS = {
         ],
     },
     'C08': {
-        'contract_modules': ['scheduler_core', 'scheduler_cell'],
-        'functions': SCHED_CORE + SCHED_CELL,
+        'contract_modules': ['scheduler_core', 'scheduler_cell', 'c08_loader'],
+        'functions': SCHED_CORE + SCHED_CELL + ['treadmill.scheduler.loader:Loader.adjust_server_state'],
         'replay': 'scheduler.py',
         'assumptions': SCHED_ASSUME + [
             'proved per pass of the cycle (each pass has the clause as its own postcondition): inactive-server pass '
